@@ -80,6 +80,14 @@ def correspondence(ctx, violations, known_hits):
                 st2["ovs"] = st["ovs"] + [r0, first, (r0 + 1) % 65536, 0x0042, (r0 + 2) % 65536, 0x0000]
                 cases.append(case_line(si % 2, st2, 0xF000, 0xF0FF))
                 meta.append((si, si % 2, 0xF000))
+    # ... and on what the console input holds next: every control byte a reader might be tempted to treat specially (CR, LF, NUL,
+    # Ctrl-D, Ctrl-Z, ESC, DEL, BS, TAB), alone and in front of a letter - GETC / IN take exactly one byte, whatever it is
+    for bi, b in enumerate((0x0D, 0x0A, 0x00, 0x04, 0x1A, 0x1B, 0x7F, 0x08, 0x09, 0xFF, 0x80, 0xC3)):
+        for tail in ([], [0x41], [0x0A], [b]):
+            st2 = dict(states[bi % len(states)])
+            st2["inp"] = [b] + tail
+            cases.append(case_line(bi % 2, st2, 0xF020, 0xF027))
+            meta.append((bi % len(states), bi % 2, 0xF020))
     profiles = ["debug"] if ctx.tier == "quick" else ["debug", "release"]
     evaluations = 0
     sigs = set()
